@@ -393,16 +393,82 @@ def lean_disc_sets(ctx, case, lean_circ):
     return sets, parsed
 
 
+def drive(ctx, gens):
+    """run case coroutines in lockstep so that all their driver requests share one `lake env lean --run`"""
+    pending = []
+    for g in gens:
+        try:
+            pending.append((g, next(g)))
+        except StopIteration:
+            pass
+    while pending:
+        lines = [l for _, req in pending for l in req]
+        ans = ctx.driver.batch(lines) if lines else []
+        nxt, k = [], 0
+        for g, req in pending:
+            part = ans[k:k + len(req)]
+            k += len(req)
+            try:
+                nxt.append((g, g.send(part)))
+            except StopIteration:
+                pass
+        pending = nxt
+
+
+def run_one(ctx, gen):
+    n0 = len(ctx.failures)
+    drive(ctx, [gen])
+    return ctx.failures[n0:]
+
+
+COMBOS = [(False, 'array'), (True, 'array'), (False, 'scalar'), (True, 'scalar')]
+
+
+def query_all(reg, pts, spec_only, bad_array, bad_scalar, stride_div):
+    """the real sky_within for every (degin, form) combination; list of (degin, form, points, answers, calls)"""
+    out = []
+    for degin, form in COMBOS:
+        if spec_only and form == 'scalar':
+            continue
+        sub = pts if form == 'array' else pts[:: max(1, len(pts) // stride_div)]
+        allp = sub + (bad_array if form == 'array' else bad_scalar)
+        got, qcalls = query_real(reg, allp, degin, form)
+        out.append((degin, form, allp, got, qcalls))
+    return out
+
+
 def run_circle_case(ctx, case, pts, spec_only=False):
-    """returns list of failures found (also reported through ctx.fail)"""
+    """coroutine: yields lists of driver lines, receives the answers; reports through ctx"""
     m, d = case['maxdepth'], case['deff']
     pix = pix_size(d)
     sig_base = dict(shape='circle', centre=case.get('centre_class', '?'), form=case['form'])
-    nfail0 = len(ctx.failures)
-    reg, calls = build_circle_region(case)
     cs = case['circles']
-    lines = [f"circ {m} {depth_str(case['depth'])} {hexes(*c)}" for c in cs]
-    lean_circ = ctx.driver.batch(lines)
+    single = len(cs) == 1
+    try:
+        stage = 'add_circles'
+        reg, calls = build_circle_region(case)
+        stage = 'get_area'
+        area = float(reg.get_area(degrees=False)) if single else None
+        area_deg = float(reg.get_area(degrees=True)) if single else None
+        stage = 'sky_within'
+        queries = query_all(reg, pts, spec_only, BAD_POINTS, BAD_POINTS[:2], 6)
+    except Exception as e:
+        ctx.case(case_pub(case), ('raise', case['id']))
+        ctx.fail('spec', dict(case, observe=stage), f'{stage} raised {type(e).__name__}: {e} on a valid circle / position list',
+                 dict(sig_base, what='raises', stage=stage, error=type(e).__name__))
+        return
+    del reg
+    # ---- round 1: hand-off model ----
+    req = [f"circ {m} {depth_str(case['depth'])} {hexes(*c)}" for c in cs] + [f"pix {d}"]
+    for degin, form, allp, got, qcalls in queries:
+        req += [f"within {m} {1 if degin else 0} {hexes(*in_units(p, degin))}" for p in allp]
+    ans = yield req
+    lean_circ, la0 = ans[:len(cs)], ans[len(cs)]
+    k = len(cs) + 1
+    lws = []
+    for degin, form, allp, got, qcalls in queries:
+        lws.append(ans[k:k + len(allp)])
+        k += len(allp)
     dsets, parsed = lean_disc_sets(ctx, case, lean_circ)
     if not spec_only:
         dcalls = [a for n, a in calls if n == 'query_disc']
@@ -418,76 +484,71 @@ def run_circle_case(ctx, case, pts, spec_only=False):
                          f"radius={pm['radius']!r} inclusive={pm['inclusive']} fact={FACT_DEFAULT} nest={pm['nest']}",
                          dict(sig_base, what='handoff-query_disc'))
                 break
+    # ---- round 2: Spec ----
+    req = [f"aspec {f2h(cs[0][2])} {d} {f2h(area)}"] if single else []
+    plans = []
+    for (degin, form, allp, got, qcalls), lw in zip(queries, lws):
+        if not spec_only:
+            check_within_handoff(ctx, case, allp, degin, form, qcalls, lw, sig_base)
+        model = model_inside(case, dsets, lw)
+        bests = []
+        for p, g in zip(allp, got):
+            if p[2].startswith(('nan', 'inf')):
+                bests.append(None)
+                continue
+            best = None
+            for c in cs:
+                dist = vincenty(c[0], c[1], p[0], p[1])
+                if best is None or dist - c[2] < best[0] - best[1]:
+                    best = (dist, c[2], c)
+            bests.append(best)
+            req.append(f"cspec {f2h(best[1])} {f2h(pix)} {f2h(best[0])} {1 if g else 0}")
+            req.append(f"sep {hexes(best[2][0], best[2][1], p[0], p[1])}")
+        plans.append((degin, form, allp, got, model, bests))
+    ans = iter((yield req))
     # ---- area (single circle only: the Spec speaks of one circle) ----
-    if len(cs) == 1:
-        area = float(reg.get_area(degrees=False))
-        area_deg = float(reg.get_area(degrees=True))
-        la = ctx.driver.batch([f"pix {d}", f"aspec {f2h(cs[0][2])} {d} {f2h(area)}"])
-        pa = h2f(la[0].split()[1])
+    if single:
+        pa = h2f(la0.split()[1])
         ctx.case(dict(case_pub(case), kind='circle-area'), ('area', case['id']))
         ctx.count('area-cases')
         if not spec_only and not common.close(area, len(dsets[0]) * pa, rel=1e-9):
             ctx.fail('corr', case, f'get_area(sr)={area!r}, model N*pixArea={len(dsets[0]) * pa!r} (N={len(dsets[0])})', dict(sig_base, what='area-model'))
         if not spec_only and not common.close(area_deg, area * (180 / math.pi) ** 2, rel=1e-9):
             ctx.fail('corr', case, f'get_area(deg2)={area_deg!r} vs sr*(180/pi)^2={area * (180 / math.pi) ** 2!r}', dict(sig_base, what='area-units'))
-        if la[1] != 'ok':
+        if next(ans) != 'ok':
             ctx.fail('spec', dict(case, observe='get_area'),
                      f"area {area!r} sr not between cap(r)={cap_area(cs[0][2])!r} and cap(r+3pix)={cap_area(cs[0][2] + 3 * pix)!r}",
                      dict(sig_base, what='area-between-caps'))
     # ---- membership ----
-    for degin in (False, True):
-        for form in (('array', 'scalar') if not spec_only else ('array',)):
-            sub = pts if form == 'array' else pts[:: max(1, len(pts) // 6)]
-            allp = sub + (BAD_POINTS if form == 'array' else BAD_POINTS[:2])
-            got, qcalls = query_real(reg, allp, degin, form)
-            lw = ctx.driver.batch([f"within {m} {1 if degin else 0} {hexes(*in_units(p, degin))}" for p in allp])
-            if not spec_only:
-                check_within_handoff(ctx, case, allp, degin, form, qcalls, lw, sig_base)
-            model = model_inside(case, dsets, lw)
-            # Spec: closest circle in margin terms decides (exact for a union of circles at one depth)
-            spec_lines, dists = [], []
-            for p, g in zip(allp, got):
-                if p[2].startswith(('nan', 'inf')):
-                    spec_lines.append(None)
-                    dists.append(None)
-                    continue
-                best = None
-                for c in cs:
-                    dist = vincenty(c[0], c[1], p[0], p[1])
-                    if best is None or dist - c[2] < best[0] - best[1]:
-                        best = (dist, c[2], c)
-                dists.append(best)
-                spec_lines.append(f"cspec {f2h(best[1])} {f2h(pix)} {f2h(best[0])} {1 if g else 0}")
-            verdicts = iter(ctx.driver.batch([s for s in spec_lines if s is not None]))
-            seps = iter(ctx.driver.batch([f"sep {hexes(b[2][0], b[2][1], p[0], p[1])}" for p, b in zip(allp, dists) if b is not None]))
-            for p, g, mo, sl, b in zip(allp, got, model, spec_lines, dists):
-                pc = dict(case_pub(case), point=list(in_units(p, degin)), tag=p[2], degin=degin, qform=form)
-                if sl is None:
-                    ctx.case(pc, ('c', case['id'], p[2], degin, form))
-                    ctx.count('nan-inf positions')
-                    if g:
-                        ctx.fail('spec', dict(case, point=list(in_units(p, degin)), tag=p[2], degin=degin, qform=form),
-                                 f'non-finite position {p[:2]} reported inside', dict(sig_base, what='nan-inside'))
-                    continue
-                dist, r = b[0], b[1]
-                constrained = dist <= r or dist > r + 3 * pix
-                ctx.case(pc, ('c', case['id'], f2h(p[0]), f2h(p[1]), degin, form) if constrained else None, sample_every=2500)
-                ctx.count('circle:' + p[2] + (':degin' if degin else ''))
-                ctx.count('circle-must-in' if dist <= r else ('circle-must-out' if dist > r + 3 * pix else 'circle-free-zone'))
-                ls = h2f(next(seps))
-                tol = 1e-7 if dist > 2.5 else 1e-11
-                if abs(ls - dist) > tol:
-                    ctx.fail('corr', pc, f'Lean sepHav={ls!r} vs independent great-circle distance {dist!r}', dict(sig_base, what='sep-crosscheck'))
-                if next(verdicts) != 'ok':
-                    what = 'circle-contains' if dist <= r else 'circle-excludes'
-                    ctx.fail('spec', dict(case, point=list(in_units(p, degin)), tag=p[2], degin=degin, qform=form, inside=g,
-                                          dist=dist, r=r, pix=pix),
-                             f"position at distance {dist!r} rad from the centre (r={r!r}, r+3pix={r + 3 * pix!r}) reported "
-                             f"{'inside' if g else 'outside'}", dict(sig_base, what=what, degin=degin))
-                elif not spec_only and g != mo:
-                    ctx.fail('corr', dict(case, point=list(in_units(p, degin)), tag=p[2], degin=degin, qform=form),
-                             f'sky_within={g}, model (ang2pix ancestor in query_disc set)={mo}', dict(sig_base, what='within-model', degin=degin))
-    return ctx.failures[nfail0:]
+    for degin, form, allp, got, model, bests in plans:
+        for p, g, mo, b in zip(allp, got, model, bests):
+            pc = dict(case_pub(case), point=list(in_units(p, degin)), tag=p[2], degin=degin, qform=form)
+            if b is None:
+                ctx.case(pc, ('c', case['id'], p[2], degin, form))
+                ctx.count('nan-inf positions')
+                if g:
+                    ctx.fail('spec', dict(case, point=list(in_units(p, degin)), tag=p[2], degin=degin, qform=form),
+                             f'non-finite position {p[:2]} reported inside', dict(sig_base, what='nan-inside'))
+                continue
+            dist, r = b[0], b[1]
+            constrained = dist <= r or dist > r + 3 * pix
+            ctx.case(pc, ('c', case['id'], f2h(p[0]), f2h(p[1]), degin, form) if constrained else None, sample_every=2500)
+            ctx.count('circle:' + p[2] + (':degin' if degin else ''))
+            ctx.count('circle-must-in' if dist <= r else ('circle-must-out' if dist > r + 3 * pix else 'circle-free-zone'))
+            verdict = next(ans)
+            ls = h2f(next(ans))
+            tol = 1e-7 if dist > 2.5 else 1e-11
+            if abs(ls - dist) > tol:
+                ctx.fail('corr', pc, f'Lean sepHav={ls!r} vs independent great-circle distance {dist!r}', dict(sig_base, what='sep-crosscheck'))
+            if verdict != 'ok':
+                what = 'circle-contains' if dist <= r else 'circle-excludes'
+                ctx.fail('spec', dict(case, point=list(in_units(p, degin)), tag=p[2], degin=degin, qform=form, inside=g,
+                                      dist=dist, r=r, pix=pix),
+                         f"position at distance {dist!r} rad from the centre (r={r!r}, r+3pix={r + 3 * pix!r}) reported "
+                         f"{'inside' if g else 'outside'}", dict(sig_base, what=what, degin=degin))
+            elif not spec_only and g != mo:
+                ctx.fail('corr', dict(case, point=list(in_units(p, degin)), tag=p[2], degin=degin, qform=form),
+                         f'sky_within={g}, model (ang2pix ancestor in query_disc set)={mo}', dict(sig_base, what='within-model', degin=degin))
 
 
 def case_pub(case):
@@ -569,29 +630,51 @@ def gen_points_poly(rng, positions, rac, decc, R, pix, n_each):
 
 
 def run_poly_case(ctx, case, pts, spec_only=False):
+    """coroutine, as run_circle_case"""
     import healpy as hp
     m, d = case['maxdepth'], case['deff']
     pix = pix_size(d)
     sig_base = dict(shape='polygon', centre=case.get('centre_class', '?'), nvert=len(case['positions']))
-    nfail0 = len(ctx.failures)
     flat = [x for p in case['positions'] for x in p]
-    lp = ctx.driver.batch([f"poly {m} {depth_str(case['depth'])} {hexes(*flat)}"])[0]
     try:
         reg, calls = build_poly_region(case)
         err = None
     except AssertionError:
         err = 'assertion'
-    except Exception as e:   # healpy rejects (degenerate / not convex): not this property's business
+    except RuntimeError as e:   # healpy rejects (degenerate / not convex): not this property's business
         err = 'healpy:' + type(e).__name__
+    except Exception as e:
+        ctx.case(case_pub(case), ('raise', case['id']))
+        ctx.fail('spec', dict(case, observe='add_poly'), f'add_poly raised {type(e).__name__}: {e} on a valid convex polygon',
+                 dict(sig_base, what='raises', stage='add_poly', error=type(e).__name__))
+        return
+    try:
+        queries = [] if err else query_all(reg, pts, spec_only, BAD_POINTS[:3], [], 5)
+    except Exception as e:
+        ctx.case(case_pub(case), ('raise', case['id']))
+        ctx.fail('spec', dict(case, observe='sky_within'), f'sky_within raised {type(e).__name__}: {e} on valid positions',
+                 dict(sig_base, what='raises', stage='sky_within', error=type(e).__name__))
+        return
+    reg = None
+    req = [f"poly {m} {depth_str(case['depth'])} {hexes(*flat)}"]
+    for degin, form, allp, got, qcalls in queries:
+        req += [f"within {m} {1 if degin else 0} {hexes(*in_units(p, degin))}" for p in allp]
+    ans = yield req
+    lp = ans[0]
     if lp == 'err assertion' or err == 'assertion':
         ctx.case(dict(case_pub(case), kind='poly-malformed'), ('pm', case['id']))
         ctx.count('poly-malformed')
         if (lp == 'err assertion') != (err == 'assertion'):
             ctx.fail('corr', case, f'add_poly outcome {err or "ok"}, model {lp[:30]}', dict(sig_base, what='poly-guard'))
-        return ctx.failures[nfail0:]
+        return
     if err:
         ctx.count('poly-rejected-by-' + err)
-        return []
+        return
+    k = 1
+    lws = []
+    for degin, form, allp, got, qcalls in queries:
+        lws.append(ans[k:k + len(allp)])
+        k += len(allp)
     w = lp.split()
     depth, nside, incl, nest = int(w[0]), int(w[1]), w[2] == '1', w[3] == '1'
     verts = np.array(parse_floats(w[4:])).reshape(-1, 3)
@@ -608,50 +691,47 @@ def run_poly_case(ctx, case, pts, spec_only=False):
                      f'model nside={nside} inclusive={incl} nest={nest} fact={FACT_DEFAULT} vertices={verts.tolist()}', dict(sig_base, what='handoff-query_polygon'))
     vs = [unit(*p) for p in case['positions']]
     rac, decc, R = case['circum']
-    for degin in (False, True):
-        for form in (('array', 'scalar') if not spec_only else ('array',)):
-            sub = pts if form == 'array' else pts[:: max(1, len(pts) // 5)]
-            allp = sub + (BAD_POINTS[:3] if form == 'array' else [])
-            got, qcalls = query_real(reg, allp, degin, form)
-            lw = ctx.driver.batch([f"within {m} {1 if degin else 0} {hexes(*in_units(p, degin))}" for p in allp])
-            if not spec_only:
-                check_within_handoff(ctx, case, allp, degin, form, qcalls, lw, sig_base)
-            model = model_inside(case, [dset], lw)
-            recs, spec_lines = [], []
-            for p, g in zip(allp, got):
-                if p[2].startswith(('nan', 'inf')):
-                    recs.append(None)
-                    continue
-                mrg = poly_margin(unit(p[0], p[1]), vs)
-                interior = mrg > 1e-13
-                dist = vincenty(rac, decc, p[0], p[1])
-                recs.append((interior, dist, mrg))
-                spec_lines.append(f"pspec {1 if interior else 0} {f2h(R)} {f2h(pix)} {f2h(dist)} {1 if g else 0}")
-            verdicts = iter(ctx.driver.batch(spec_lines))
-            for p, g, mo, rc in zip(allp, got, model, recs):
-                pcase = dict(case_pub(case), point=list(in_units(p, degin)), tag=p[2], degin=degin, qform=form)
-                if rc is None:
-                    ctx.case(pcase, ('p', case['id'], p[2], degin, form))
-                    ctx.count('nan-inf positions')
-                    if g:
-                        ctx.fail('spec', dict(case, point=list(in_units(p, degin)), tag=p[2], degin=degin, qform=form),
-                                 f'non-finite position {p[:2]} reported inside', dict(sig_base, what='nan-inside'))
-                    continue
-                interior, dist, mrg = rc
-                constrained = interior or dist > R + 3 * pix
-                ctx.case(pcase, ('p', case['id'], f2h(p[0]), f2h(p[1]), degin, form) if constrained else None, sample_every=2500)
-                ctx.count('poly:' + p[2] + (':degin' if degin else ''))
-                ctx.count('poly-must-in' if interior else ('poly-must-out' if dist > R + 3 * pix else 'poly-free-zone'))
-                if next(verdicts) != 'ok':
-                    what = 'poly-contains' if interior else 'poly-excludes'
-                    ctx.fail('spec', dict(case, point=list(in_units(p, degin)), tag=p[2], degin=degin, qform=form, inside=g,
-                                          interior=bool(interior), edge_margin=mrg, dist_from_circumcentre=dist, R=R, pix=pix),
-                             f"position ({'interior, edge margin %r' % mrg if interior else 'at %r rad from the circumcentre, R+3pix=%r' % (dist, R + 3 * pix)}) "
-                             f"reported {'inside' if g else 'outside'}", dict(sig_base, what=what, degin=degin))
-                elif not spec_only and g != mo:
-                    ctx.fail('corr', dict(case, point=list(in_units(p, degin)), tag=p[2], degin=degin, qform=form),
-                             f'sky_within={g}, model (ang2pix ancestor in query_polygon set)={mo}', dict(sig_base, what='within-model', degin=degin))
-    return ctx.failures[nfail0:]
+    req, plans = [], []
+    for (degin, form, allp, got, qcalls), lw in zip(queries, lws):
+        if not spec_only:
+            check_within_handoff(ctx, case, allp, degin, form, qcalls, lw, sig_base)
+        model = model_inside(case, [dset], lw)
+        recs = []
+        for p, g in zip(allp, got):
+            if p[2].startswith(('nan', 'inf')):
+                recs.append(None)
+                continue
+            mrg = poly_margin(unit(p[0], p[1]), vs)
+            interior = mrg > 1e-13
+            dist = vincenty(rac, decc, p[0], p[1])
+            recs.append((interior, dist, mrg))
+            req.append(f"pspec {1 if interior else 0} {f2h(R)} {f2h(pix)} {f2h(dist)} {1 if g else 0}")
+        plans.append((degin, form, allp, got, model, recs))
+    verdicts = iter((yield req))
+    for degin, form, allp, got, model, recs in plans:
+        for p, g, mo, rc in zip(allp, got, model, recs):
+            pcase = dict(case_pub(case), point=list(in_units(p, degin)), tag=p[2], degin=degin, qform=form)
+            if rc is None:
+                ctx.case(pcase, ('p', case['id'], p[2], degin, form))
+                ctx.count('nan-inf positions')
+                if g:
+                    ctx.fail('spec', dict(case, point=list(in_units(p, degin)), tag=p[2], degin=degin, qform=form),
+                             f'non-finite position {p[:2]} reported inside', dict(sig_base, what='nan-inside'))
+                continue
+            interior, dist, mrg = rc
+            constrained = interior or dist > R + 3 * pix
+            ctx.case(pcase, ('p', case['id'], f2h(p[0]), f2h(p[1]), degin, form) if constrained else None, sample_every=2500)
+            ctx.count('poly:' + p[2] + (':degin' if degin else ''))
+            ctx.count('poly-must-in' if interior else ('poly-must-out' if dist > R + 3 * pix else 'poly-free-zone'))
+            if next(verdicts) != 'ok':
+                what = 'poly-contains' if interior else 'poly-excludes'
+                ctx.fail('spec', dict(case, point=list(in_units(p, degin)), tag=p[2], degin=degin, qform=form, inside=g,
+                                      interior=bool(interior), edge_margin=mrg, dist_from_circumcentre=dist, R=R, pix=pix),
+                         f"position ({'interior, edge margin %r' % mrg if interior else 'at %r rad from the circumcentre, R+3pix=%r' % (dist, R + 3 * pix)}) "
+                         f"reported {'inside' if g else 'outside'}", dict(sig_base, what=what, degin=degin))
+            elif not spec_only and g != mo:
+                ctx.fail('corr', dict(case, point=list(in_units(p, degin)), tag=p[2], degin=degin, qform=form),
+                         f'sky_within={g}, model (ang2pix ancestor in query_polygon set)={mo}', dict(sig_base, what='within-model', degin=degin))
 
 
 # ---------------------------------------------------------------------------------------------
@@ -667,8 +747,27 @@ def conversion_checks(ctx, n):
     pos = [(a, d) for a in ras for d in decs]
     pos += [(rng.uniform(0, TWO_PI), math.asin(rng.uniform(-1, 1))) for _ in range(n)]
     sky = np.array(pos)
-    vec = Region.sky2vec(sky)
-    ang = Region.sky2ang(sky)
+    try:
+        stage = 'sky2ang'
+        ang = Region.sky2ang(sky)
+        stage = 'sky2vec'
+        vec = Region.sky2vec(sky)
+        stage = 'vec2sky'
+        Region.vec2sky(vec)
+    except Exception as e:
+        # find one concrete position on which the conversion raises
+        bad = None
+        for a, d in pos:
+            try:
+                Region.vec2sky(Region.sky2vec(np.array([[a, d]])))
+            except Exception:
+                bad = (a, d)
+                break
+        ctx.case(dict(kind='roundtrip', ra=bad and bad[0], dec=bad and bad[1]), ('raise', stage))
+        ctx.fail('spec', dict(kind='roundtrip', ra=bad and bad[0], dec=bad and bad[1]),
+                 f'{stage} raised {type(e).__name__}: {e} for a position with 0<=ra<2pi, |dec|<=pi/2',
+                 dict(what='raises', stage=stage, error=type(e).__name__))
+        return
     lv = ctx.driver.batch([f"s2v {hexes(a, d)}" for a, d in pos])
     notes = {}
     for (a, d), v, tp, l in zip(pos, vec, ang, lv):
@@ -707,7 +806,8 @@ def conversion_checks(ctx, n):
         npole = sorted({round(x[2], 12) for x in notes['pole'] if x[1] > 0})
         spole = [x for x in notes['pole'] if x[1] < 0]
         ctx.extra['pole_behaviour'] = dict(
-            north="dec=+pi/2 (float): sky2vec gives (0,0,1) exactly and vec2sky answers ra=%s for every ra (theorem vec2sky_pole_ra)" % npole,
+            north="dec=+pi/2 (float): theta=0, sky2vec gives (+-0,+-0,1) and vec2sky answers ra in %s whatever ra went in (signed zeros give pi; "
+                  "over the reals 0: theorem vec2sky_pole_ra) - ra is not recoverable at the pole" % npole,
             south="dec=-pi/2 (float): theta = float(pi), sin(theta) = 1.2e-16 != 0, so ra is recovered (%d/%d within 1e-9) — a rounding artefact, "
                   "outside the theorem's domain" % (sum(1 for a, d, r in spole if min(abs(r - a), TWO_PI - abs(r - a)) < 1e-9), len(spole)))
 
@@ -879,38 +979,60 @@ def make_poly_case(ctx, k, budget):
                 circum=[rac, decc, R], centre_class=cls)
 
 
-def malformed(ctx):
-    """fewer than three polygon positions; empty position list"""
-    for k, pos in enumerate([[], [[0.1, 0.2]], [[0.1, 0.2], [0.3, 0.2]]]):
-        if not pos:
-            continue   # zip(*[]) fails before the assertion with a different error; not a position list at all
-        case = dict(kind='polygon', id=f'pm{k}', maxdepth=6, depth=5, deff=5, positions=pos, circum=[0.2, 0.2, 0.2], centre_class='malformed')
-        run_poly_case(ctx, case, [])
+def malformed_cases():
+    """fewer than three polygon positions"""
+    out = []
+    for k, pos in enumerate([[[0.1, 0.2]], [[0.1, 0.2], [0.3, 0.2]]]):
+        out.append(dict(kind='polygon', id=f'pm{k}', maxdepth=6, depth=5, deff=5, positions=pos, circum=[0.2, 0.2, 0.2],
+                        centre_class='malformed'))
+    return out
+
+
+CHUNK = 16
+
+
+def circle_gen(ctx, k, budget, n_each, spec_only=False):
+    case = make_circle_case(ctx, k, budget)
+    c0 = case['circles'][0]
+    pts = gen_points_circle(ctx.rng, c0[0], c0[1], c0[2], pix_size(case['deff']), n_each)
+    for c in case['circles'][1:]:
+        pts += gen_points_circle(ctx.rng, c[0], c[1], c[2], pix_size(case['deff']), 2)
+    ctx.count(f"circle depth {case['deff']}")
+    ctx.count('circle radius decade 1e%d deg' % math.floor(math.log10(math.degrees(c0[2]))))
+    ctx.count('circle centre ' + case['centre_class'])
+    ctx.count('circle form ' + case['form'] + ('' if len(case['circles']) == 1 else ' (several)'))
+    ctx.count('depth argument ' + ('None' if case['depth'] is None else ('> maxdepth' if case['depth'] > case['maxdepth'] else
+                                                                         ('< maxdepth' if case['depth'] < case['maxdepth'] else '= maxdepth'))))
+    return case, run_circle_case(ctx, case, pts, spec_only)
+
+
+def poly_gen(ctx, k, budget, n_each, spec_only=False):
+    case = make_poly_case(ctx, k, budget)
+    pts = gen_points_poly(ctx.rng, [tuple(p) for p in case['positions']], *case['circum'], pix_size(case['deff']), n_each)
+    ctx.count(f"polygon depth {case['deff']}")
+    ctx.count(f"polygon vertices {len(case['positions'])}")
+    ctx.count('polygon centre ' + case['centre_class'])
+    return case, run_poly_case(ctx, case, pts, spec_only)
 
 
 def run(ctx):
     quick = ctx.quick
     budget = 40000 if quick else 250000
     conversion_checks(ctx, 300 if quick else 3000)
-    sample_contract(ctx, 16 if quick else 120, 6 if quick else 40, 5 if quick else 6)
-    ncirc, npoly, n_each = (30, 20, 6) if quick else (160, 100, 14)
-    for k in range(ncirc):
-        case = make_circle_case(ctx, k + 10 * ctx.seed, budget)
-        c0 = case['circles'][0]
-        pts = gen_points_circle(ctx.rng, c0[0], c0[1], c0[2], pix_size(case['deff']), n_each)
-        for c in case['circles'][1:]:
-            pts += gen_points_circle(ctx.rng, c[0], c[1], c[2], pix_size(case['deff']), 2)
-        run_circle_case(ctx, case, pts)
-        ctx.count(f"circle depth {case['deff']}")
-        ctx.count('circle radius decade 1e%d deg' % math.floor(math.log10(math.degrees(c0[2]))))
-        ctx.count('circle centre ' + case['centre_class'])
-    for k in range(npoly):
-        case = make_poly_case(ctx, k + 10 * ctx.seed, budget)
-        pts = gen_points_poly(ctx.rng, [tuple(p) for p in case['positions']], *case['circum'], pix_size(case['deff']), n_each)
-        run_poly_case(ctx, case, pts)
-        ctx.count(f"polygon depth {case['deff']}")
-        ctx.count(f"polygon vertices {len(case['positions'])}")
-    malformed(ctx)
+    sample_contract(ctx, 12 if quick else 120, 5 if quick else 40, 5 if quick else 6)
+    ncirc, npoly, n_each = (60, 36, 8) if quick else (240, 144, 16)
+    for k0 in range(0, ncirc, CHUNK):
+        drive(ctx, [circle_gen(ctx, k + 10 * ctx.seed, budget, n_each)[1] for k in range(k0, min(ncirc, k0 + CHUNK))])
+    for k0 in range(0, npoly, CHUNK):
+        drive(ctx, [poly_gen(ctx, k + 10 * ctx.seed, budget, n_each)[1] for k in range(k0, min(npoly, k0 + CHUNK))])
+    drive(ctx, [run_poly_case(ctx, c, []) for c in malformed_cases()])
+    # a Spec failure found on a composite case: put its minimised form (one circle, scalar call, one position) first
+    for f in list(ctx.failures):
+        if f['kind'] == 'spec' and f['case'].get('kind') == 'circle' and 'point' in f['case'] and 'circles' in f['case']:
+            c = f['case']
+            if len(c['circles']) > 1 or c['form'] != 'scalar' or c['maxdepth'] != c['deff']:
+                shrink_circle(ctx, {k: v for k, v in c.items() if k in ('kind', 'id', 'maxdepth', 'depth', 'deff', 'circles', 'form', 'centre_class')}, f)
+            break
 
 
 def shrink_circle(ctx, case, fail):
@@ -924,7 +1046,7 @@ def shrink_circle(ctx, case, fail):
     best = min(cs, key=lambda c: vincenty(c[0], c[1], pr[0], pr[1]) - c[2])
     small = dict(case, id=case['id'] + '-min', circles=[best], form='scalar', maxdepth=case['deff'], depth=case['deff'])
     n0 = len(ctx.failures)
-    run_circle_case(ctx, small, [(pr[0], pr[1], 'shrunk')], spec_only=True)
+    run_one(ctx, run_circle_case(ctx, small, [(pr[0], pr[1], 'shrunk')], spec_only=True))
     if len(ctx.failures) > n0:
         # keep the minimal one first
         ctx.failures.insert(0, ctx.failures.pop(n0))
@@ -933,19 +1055,22 @@ def shrink_circle(ctx, case, fail):
 def search(ctx):
     """implementation vs Spec only, denser, with shrinking"""
     budget = 40000 if ctx.quick else 150000
-    for k in range(40 if ctx.quick else 150):
-        case = make_circle_case(ctx, 1000 + k, budget)
-        c0 = case['circles'][0]
-        pts = gen_points_circle(ctx.rng, c0[0], c0[1], c0[2], pix_size(case['deff']), 10)
-        fails = [f for f in run_circle_case(ctx, case, pts, spec_only=True) if f['kind'] == 'spec']
+    n = 32 if ctx.quick else 144
+    for k0 in range(0, n, CHUNK):
+        n0 = len(ctx.failures)
+        pairs = [circle_gen(ctx, 1000 + k, budget, 10, spec_only=True) for k in range(k0, k0 + CHUNK)]
+        drive(ctx, [g for _, g in pairs])
+        fails = [f for f in ctx.failures[n0:] if f['kind'] == 'spec']
         if fails:
-            shrink_circle(ctx, case, fails[0])
+            for case, _ in pairs:
+                if case['id'] == fails[0]['case'].get('id'):
+                    shrink_circle(ctx, case, fails[0])
             return
-    for k in range(25 if ctx.quick else 100):
-        case = make_poly_case(ctx, 1000 + k, budget)
-        pts = gen_points_poly(ctx.rng, [tuple(p) for p in case['positions']], *case['circum'], pix_size(case['deff']), 10)
-        fails = [f for f in run_poly_case(ctx, case, pts, spec_only=True) if f['kind'] == 'spec']
-        if fails:
+    n = 16 if ctx.quick else 96
+    for k0 in range(0, n, CHUNK):
+        n0 = len(ctx.failures)
+        drive(ctx, [poly_gen(ctx, 1000 + k, budget, 10, spec_only=True)[1] for k in range(k0, k0 + CHUNK)])
+        if any(f['kind'] == 'spec' for f in ctx.failures[n0:]):
             return
     conversion_checks(ctx, 500)
 
@@ -970,8 +1095,8 @@ def replay(ctx, rec):
         base['deff'] = base['maxdepth'] if d is None or d > base['maxdepth'] else d
     if kind == 'circle':
         base['circles'] = [tuple(c) for c in base['circles']]
-        run_circle_case(ctx, base, pts or [(base['circles'][0][0], base['circles'][0][1], 'centre')])
+        run_one(ctx, run_circle_case(ctx, base, pts or [(base['circles'][0][0], base['circles'][0][1], 'centre')]))
     elif kind == 'polygon':
-        run_poly_case(ctx, base, pts)
+        run_one(ctx, run_poly_case(ctx, base, pts))
     else:
         ctx.note(f'replay: unknown case kind {kind!r}')
